@@ -133,7 +133,8 @@ func (c *ctx) oneHistory(obj string, g, opsPer, keys int) {
 	am := cmap.NewAtomic[int, int64]()
 	sl := kslice.New[int]()
 	names := &ptrNames{id: map[*cmap.AtomicValue[int64]]int{}}
-	lockstep := c.rnd.Intn(4) != 0
+	lockstep := c.rnd.Intn(4) != 0 || c.burst
+	wide := c.rnd.Bool()
 	var arrived atomic.Int64
 	outcome := guarded(20*time.Second, func() {
 		for t := 0; t < g; t++ {
@@ -152,6 +153,10 @@ func (c *ctx) oneHistory(obj string, g, opsPer, keys int) {
 				var local []opRec
 				<-start
 				for i := 0; i < opsPer; i++ {
+					var preInv int64
+					if lockstep && wide {
+						preInv = st.now() // invocation stamped before the barrier: the round's calls overlap on record
+					}
 					if lockstep {
 						// spin barrier: all goroutines enter round i together, so the calls really overlap
 						arrived.Add(1)
@@ -168,7 +173,15 @@ func (c *ctx) oneHistory(obj string, g, opsPer, keys int) {
 					v := t*100 + i + 1
 					switch obj {
 					case "map":
-						switch x := rnd(100); {
+						x := rnd(100)
+						if c.burst {
+							x = []int{0, 60, 60, 30}[(i+t)%4] // store / LoadAndDelete / LoadAndDelete / load on one key
+							if i == 0 {
+								x = 0
+							}
+							k = 0
+						}
+						switch {
 						case x < 28:
 							rec.Op, rec.Args = "store", []int{k, v}
 							rec.Inv = st.now()
@@ -221,7 +234,11 @@ func (c *ctx) oneHistory(obj string, g, opsPer, keys int) {
 							rec.Res = "u"
 						}
 					case "ctr":
-						switch x := rnd(100); {
+						x := rnd(100)
+						if c.burst {
+							x = 99 // Add
+						}
+						switch {
 						case x < 35:
 							rec.Op = "load"
 							rec.Inv = st.now()
@@ -244,6 +261,10 @@ func (c *ctx) oneHistory(obj string, g, opsPer, keys int) {
 						}
 					case "amap":
 						x := rnd(100)
+						if c.burst {
+							x = []int{0, 85, 45, 0, 85}[(i+t)%5] // GetOrCreate / counter Add / Delete on one key
+							k = 0
+						}
 						if x >= 60 && len(mine) == 0 {
 							x = 10
 						}
@@ -317,7 +338,11 @@ func (c *ctx) oneHistory(obj string, g, opsPer, keys int) {
 							rec.Res = "n" + strconv.FormatInt(n, 10)
 						}
 					case "slice":
-						switch x := rnd(100); {
+						x := rnd(100)
+						if c.burst {
+							x = 0 // Append
+						}
+						switch {
 						case x < 50:
 							items := []int{v}
 							if rnd(3) == 0 {
@@ -344,6 +369,9 @@ func (c *ctx) oneHistory(obj string, g, opsPer, keys int) {
 							rec.Ret = st.now()
 							rec.Res = "l" + ints(append([]int{}, s...))
 						}
+					}
+					if preInv != 0 {
+						rec.Inv = preInv
 					}
 					local = append(local, rec)
 				}
@@ -372,6 +400,9 @@ func (c *ctx) checkHistory(h histCase, sample bool) {
 	c.res.Hit(fmt.Sprintf("hist.goroutines=%d", h.Goroutines))
 	if ov {
 		c.res.Hit("hist.overlapping." + h.Obj)
+	}
+	if c.burst {
+		c.res.Hit("hist.burst." + h.Obj)
 	}
 	for _, o := range h.Ops {
 		c.res.Hit("hist." + h.Obj + ".op=" + o.Op)
@@ -436,6 +467,12 @@ func (c *ctx) histories(quick bool, mult int) {
 			g := c.rnd.Range(2, 4)
 			c.oneHistory(obj, g, c.rnd.Range(1, 5), c.rnd.Range(1, 3))
 		}
+		// bursts: every goroutine hammers the same read-modify-write operation on one key in lockstep
+		c.burst = true
+		for i := 0; i < per/2; i++ {
+			c.oneHistory(obj, c.rnd.Range(2, 4), c.rnd.Range(2, 5), 1)
+		}
+		c.burst = false
 	}
 	c.flushHist()
 }
@@ -519,6 +556,10 @@ func (c *ctx) checkerControls() {
 		}
 	}
 	c.flushHist()
+}
+
+func sortOps(ops []opRec) {
+	sort.Slice(ops, func(i, j int) bool { return ops[i].Inv < ops[j].Inv })
 }
 
 // recordOnly runs a history without judging it (source for mutants).
